@@ -41,7 +41,10 @@ HEADER = """From Coq Require Import ZArith List Bool Arith.
 From WH.Model Require Import VcfRecord.
 Import ListNotations.
 Open Scope Z_scope.
-Record kase := mkCase { k_cf : cfg; k_plan : list (token * list target); k_in : list vrec; k_out : option (list vrec);
+(* k_plan: what the writer was given (trace / driver; L2).  k_sel: the specification's view -- every SELECTED sample
+   is a target on every SELECTED chromosome, whether or not the run handed it to the writer. *)
+Record kase := mkCase { k_cf : cfg; k_plan : list (token * list target); k_sel : list (token * list target);
+  k_in : list vrec; k_out : option (list vrec);
   k_distrust : bool; k_cli : bool; k_hin : header; k_hout : header; k_use : body_use; k_cmd : option token;
   k_predef_f : list token; k_predef_i : list token }.
 (* the model of the code as it is: the repaired rules (orig_rules / orig_guard = before the fix commits) *)
@@ -70,11 +73,24 @@ Definition l1_alleles (k : kase) := with_out k (fun o =>
   else if k_cli k then alleles_kept (k_in k) o       (* whatshap phase without --distrust-genotypes: unconditional *)
   else if superreads_agree (k_cf k) (annotate (k_plan k) (k_in k)) then alleles_kept (k_in k) o else true).
 Definition l1_het (k : kase) := with_out k (only_het_supported (k_cf k) (annotate (k_plan k) (k_in k))).
+(* "only heterozygous calls of supported variant types are ever marked phased", for the selected samples on the
+   selected chromosomes and for EITHER encoding, whether or not the statement was already in the input: the writer
+   removes all earlier phase information of its targets, so whatever is marked afterwards must be the run's *)
+Fixpoint calls_marked_ok (ts : list target) (i : nat) (supp : bool) (b : list call) : bool :=
+  match b with
+  | [] => true
+  | y :: b' => (negb (is_target ts i && (marked TagPS y || marked TagHP y)) || (het_call y && supp))
+               && calls_marked_ok ts (S i) supp b'
+  end.
+Definition l1_marked (k : kase) := with_out k (fun o =>
+  all2 (fun p y => calls_marked_ok (snd p) O (supported (k_cf k) (fst p)) (calls y)) (annotate (k_sel k) (k_in k)) o).
+Definition l1_frames_sel (k : kase) := with_out k (frames (annotate (k_sel k) (k_in k))).
 Definition l1_header (k : kase) := with_out k (fun _ => header_superset (k_hin k) (k_hout k)).
 Definition plan_ok (k : kase) := list_eqb Z.eqb (map fst (k_plan k)) (runs (k_in k)).
 """
 CHECKS = {"L2": "l2", "L2_header": "l2_header", "conserves": "l1_conserves", "conserves_mod_end": "l1_conserves_mod_end", "conserves_end_rule": "l1_conserves_end_rule",
-          "frames": "l1_frames", "alleles": "l1_alleles", "het": "l1_het", "header": "l1_header", "plan_ok": "plan_ok"}
+          "frames": "l1_frames", "alleles": "l1_alleles", "het": "l1_het", "marked": "l1_marked", "frames_sel": "l1_frames_sel",
+          "header": "l1_header", "plan_ok": "plan_ok"}
 
 
 # ----------------------------------------------------------------------------------- plans
@@ -176,7 +192,7 @@ def plan_term(plan, samples, it):
     return "[" + ";\n ".join(items) + "]"
 
 
-def case_term(cfgd, plan, fin, fout, distrust, cmdline, cli=False):
+def case_term(cfgd, plan, fin, fout, distrust, cmdline, cli=False, sel_plan=None):
     it = vcfabs.Interner()
     pf = "[" + "; ".join(vcfabs._z(it(x)) for x in vcfgen.PREDEF_FORMATS) + "]"
     pi = "[" + "; ".join(vcfabs._z(it(x)) for x in vcfgen.PREDEF_INFOS) + "]"
@@ -185,7 +201,7 @@ def case_term(cfgd, plan, fin, fout, distrust, cmdline, cli=False):
     # VcfAugmenter: command_line = '"' + command_line.replace('"', "") + '"'
     cmd = "None" if cmdline is None else f"(Some {vcfabs._z(it('v:' + chr(34) + cmdline.replace(chr(34), '') + chr(34)))})"
     return ("(mkCase " + vcfabs.cfg_term(cfgd["tag"], cfgd["only_snvs"], cfgd["mav"], vcfabs.end_declared(fin)) + "\n " + plan_term(plan, fin.samples, it)
-            + "\n " + vcfabs.recs_term(fin.records, it) + "\n " + out + " " + ("true" if distrust else "false") + " "
+            + "\n " + plan_term(sel_plan if sel_plan is not None else plan, fin.samples, it) + "\n " + vcfabs.recs_term(fin.records, it) + "\n " + out + " " + ("true" if distrust else "false") + " "
             + ("true" if cli else "false") + "\n "
             + vcfabs.header_term(fin.header, it) + "\n " + hout + "\n " + vcfabs.use_term(vcfabs.body_use(fin), it) + " "
             + cmd + " " + pf + " " + pi + ")")
@@ -221,6 +237,8 @@ SIG = {
     "frames": ("writer:frame", "a call of a non-target sample / non-selected chromosome changed, or a non-phase FORMAT field of a target call changed"),
     "alleles": ("writer:alleles", "allele multiset of a genotype changed although genotypes were trusted"),
     "het": ("writer:phased-not-het-or-unsupported", "a call was marked phased that is not heterozygous / not of a supported variant type"),
+    "marked": ("phase:old-phase-of-selected-sample-kept", "a selected sample's call on a selected chromosome is marked phased (GT `|` or HP value) although it is not heterozygous / its record is not of a supported type: earlier phase information survived the run"),
+    "frames_sel": ("writer:frame", "a call of a non-selected sample / non-selected chromosome changed, or a non-phase FORMAT field of a selected sample's call changed"),
     "header": ("writer:header-definition-lost", "a definition of the input header is missing from the output header"),
 }
 
@@ -600,6 +618,17 @@ def gen_cli_input(rng):
     opts["two_bams"] = len(reads) > 4 and rng.random() < 0.2
     opts["no_reads_for"] = no_reads_for
     vt = decorate_scenario(rng, sc, opts)
+    opts["unusable"] = None
+    if rng.random() < 0.3:
+        # a (selected or not) chromosome on which nothing can be phased, carrying earlier phasing of every sample
+        kind = rng.choice(vcfgen.UNUSABLE_KINDS)
+        ci = rng.randrange(len(sc.chroms))
+        where = "only" if len(sc.chroms) == 1 else "first" if ci == 0 else "last" if ci == len(sc.chroms) - 1 else "middle"
+        enc = rng.choice(["PS", "HP"])
+        vcfgen.make_unusable_chromosome(rng, vt, sc.chroms[ci], kind, enc)
+        if kind == "all_indel_only_snvs":
+            opts["only_snvs"] = True
+        opts["unusable"] = [kind, where, enc]
     return sc, reads, vt, opts
 
 
@@ -724,7 +753,18 @@ def make_cli_case(ctx, wd, idx, sc, reads, vt, opts):
     for k, v in fout.header.generic:
         if k == "commandline":
             cmdline = v.strip(chr(34))
-    term = case_term(cfgd, plan, fin, fout, opts["distrust"], cmdline, cli=True)
+    # the specification's targets: every selected sample on every selected chromosome
+    if opts.get("samples"):
+        selected = set(opts["samples"])
+    elif opts.get("ped") and opts.get("use_ped_samples"):
+        selected = set(opts["ped"][0])
+    else:
+        selected = set(fin.samples)
+    sel_plan = []
+    for c, t in plan:
+        chosen = not opts["chromosomes"] or c in opts["chromosomes"]
+        sel_plan.append((c, {sm: t.get(sm, ([], {})) for sm in fin.samples if sm in t or (chosen and sm in selected)}))
+    term = case_term(cfgd, plan, fin, fout, opts["distrust"], cmdline, cli=True, sel_plan=sel_plan)
     return {"term": term, "replay": replay, "desc": desc, "fin": fin, "fout": fout, "plan": plan, "cfgd": cfgd}
 
 
@@ -754,6 +794,10 @@ def run_cli(ctx, n):
             if opts.get(k):
                 ctx.tally("cli." + k)
         tally_shapes(ctx, "cli", vt)
+        if opts.get("unusable"):
+            ctx.tally("cli.unusable_chromosome." + ".".join(opts["unusable"]))
+            ctx.tally("cli.unusable_chromosome" + (".with_sample_selection" if opts["samples"] else ".all_samples")
+                      + (".multi_sample" if len(sc.samples) > 1 else ".single_sample"))
         if "malformed" in c:
             ctx.tally("cli.failed")
             ctx.violation("phase:crash", "whatshap phase failed on a well-formed input: " + c["desc"] + " :: " + c["malformed"][-300:],
